@@ -122,6 +122,8 @@ def gen(rng: random.Random, tier: str):
             continue
         seen.append(p)
         cases += list(p["gen"](rng, tier))
+    for d in U.drain_unhealthy():   # exploration met a store that is not a forest: let the tie and the oracle see it
+        cases.append(mk_case(d, ("explore-unhealthy",)))
     return cases
 
 
